@@ -71,6 +71,13 @@ func scenC15(k *K) {
 }
 
 func c15Load(k *K, c *Cluster, T *Node, lim int, viaOption bool, full []string, single bool) {
+	c15LoadOpt(k, c, T, lim, viaOption, full, single, false)
+}
+
+// c15LoadOpt: with refusedInHistory set, blocks of entries that every replica refuses are
+// reachable from the cached heads; a limited load may then show fewer than min(n, total)
+// entries (the fetch counts the refused ones), which is not held against it here
+func c15LoadOpt(k *K, c *Cluster, T *Node, lim int, viaOption bool, full []string, single bool, refusedInHistory bool) {
 	total := len(full)
 	img := T.Disk.FromPrefix(len(T.Disk.Effects))
 	rn := k.W.AddNodeWithDisk(T.Idx, img)
@@ -128,7 +135,11 @@ func c15Load(k *K, c *Cluster, T *Node, lim int, viaOption bool, full []string, 
 	} else if lim >= total {
 		cls = "limit-ge-total"
 	}
-	if len(got) != want {
+	if refusedInHistory && lim > 0 {
+		if len(got) > want || len(got) == 0 {
+			k.Failf("C15/count/"+cls, "%s on a persisted %d-entry log with refused entries in its ancestry made %d entries visible, expected 1..%d", how, total, len(got), want)
+		}
+	} else if len(got) != want {
 		k.Failf("C15/count/"+cls, "%s on a persisted %d-entry log (single writer: %v) made %d entries visible, expected %d", how, total, single, len(got), want)
 	}
 	if !isSubsequence(got, full) {
@@ -171,4 +182,34 @@ func c15Load(k *K, c *Cluster, T *Node, lim int, viaOption bool, full []string, 
 			k.Failf("C15/view-empty", "%s loaded %d entries but List(-1) is empty", how, len(got))
 		}
 	}
+}
+
+func init() {
+	Register(&Scenario{Prop: "C15", Name: "limit-with-refused-ancestor", Run: scenC15Refused, Weight: 1,
+		Rule: "the persisted log of a replica R holds valid entries of a misbehaving authorised writer whose next or refs name entries every replica refuses (forged author, other log), besides honest entries of two writers; fresh instances on copies of R's directory load it with limits from -1 to total+2 (per call or through the maximum-history option); oracle: no call panics, hangs or fails; what becomes visible is in log order and includes the newest entry; unlimited loads show all total entries, a positive limit n shows between 1 and min(n, total) entries (the fetch counts the refused blocks it meets); non-trivial = R had merged at least one entry with a refused entry in its ancestry and at least one limit lay inside the log"})
+}
+
+func scenC15Refused(k *K) {
+	c, _, _, tainted := refusedAncestorHistory(k, "C15")
+	R := c.Stores[1]
+	full := LogHashSeq(R)
+	total := len(full)
+	T := c.Peers[1].Node
+	c.Down(1, false)
+	inside := false
+	lims := []int{-1, 0, total, total + 2}
+	for j, m := 0, k.C.Range(2, 5); j < m && total > 1; j++ {
+		lims = append(lims, k.C.Range(1, total-1))
+	}
+	for _, i := range k.C.Perm(len(lims)) {
+		lim := lims[i]
+		if lim > 0 && lim < total {
+			inside = true
+		}
+		c15LoadOpt(k, c, T, lim, lim > 0 && k.C.Chance(1, 3), full, false, true)
+	}
+	k.Notes["total"] = total
+	k.Notes["tainted_merged"] = tainted
+	k.Notes["nontrivial"] = tainted > 0 && inside
+	c.CloseAll()
 }
